@@ -76,12 +76,17 @@ CTX_MOD2 = CTX_MOD + ['GHOST.open_files'] + LOADER_SCHEMA
 IOERR = Raise('OSError', then=[UNCHANGED_OPEN], label='io-error-while-reading-a-resource (environment fault, passes through)')
 prim('url_ok', 'str -> bool', args=['u'],      # urllib can parse the URL (no ValueError)
      axioms=['implies(result, url_ok(file3(u)))'])   # (assumed) writing out the empty host of a file URL keeps it parseable
+# typestate of a sink (C02, C07): `finished` is a ghost flag, false for a new sink, set when the
+# context closes it; a sink is closed at most once - the parser proves that it hands every sink it
+# got from startSection to endSection exactly once (stack invariants below)
 assumed('ParserContext.startSection', self_type='ParserContext',
         params={'section': 'Ref[Sink]', 'type_': 'str', 'name': 'Opt[str]'}, returns='Ref[Sink]',
+        fresh_result=True, ensures=[Clause('fresh(result) and not result.finished', label='a-new-open-sink')],
         modifies=CTX_MOD, raises=[Raise('ZConfig.ConfigurationError+')])
 assumed('ParserContext.endSection', self_type='ParserContext',
         params={'section': 'Ref[Sink]', 'type_': 'str', 'name': 'Opt[str]', 'newsect': 'Ref[Sink]'},
-        modifies=CTX_MOD, raises=[Raise('ZConfig.ConfigurationError+', then=ERR_THEN + [
+        requires=[Clause('not newsect.finished', label='closed-at-most-once')],
+        modifies=CTX_MOD + ['newsect.finished'], raises=[Raise('ZConfig.ConfigurationError+', then=ERR_THEN + [
             Clause("implies(isa(exc, 'ZConfig.DataConversionError'), exc.has_lineno and "
                    "exc.lineno == raised_lineno(exc) and exc.url == raised_url(exc))")])])
 assumed('ParserContext.importSchemaComponent', self_type='ParserContext', params={'pkgname': 'str'},
@@ -89,8 +94,8 @@ assumed('ParserContext.importSchemaComponent', self_type='ParserContext', params
         raises=[Raise('ZConfig.ConfigurationError+', then=[UNCHANGED_OPEN]), IOERR])
 assumed('ParserContext.includeConfiguration', self_type='ParserContext',
         params={'section': 'Ref[Sink]', 'url': 'str', 'defines': 'Ref[dict:defines]'},
-        requires=[Clause('url_ok(url)', label='url-parses')],
-        modifies=CTX_MOD2 + ['defines.items'], ensures=[UNCHANGED_OPEN],
+        requires=[Clause('url_ok(url)', label='url-parses'), Clause('not section.finished', label='included-into-an-open-section')],
+        modifies=CTX_MOD2 + ['defines.items', '+Sink.finished'], ensures=[UNCHANGED_OPEN],
         raises=[Raise('ZConfig.ConfigurationError+', then=[UNCHANGED_OPEN]), IOERR])
 
 model('ParserResource', fields={'file': 'Ref[File]', 'url': 'Opt[str]'}, external=True)
@@ -99,7 +104,14 @@ STACK = 'Seq[Tuple[str, Opt[str], Ref[Sink]]]'
 model('cfgparser.ZConfigParser',
       fields={'resource': 'Ref[ParserResource]', 'context': 'Ref[ParserContext]', 'file': 'Ref[File]',
               'url': 'Opt[str]', 'lineno': 'int', 'stack': STACK, 'defines': 'Ref[dict:defines]'},
-      invariant=[Clause('self.lineno >= 0', label='lineno-nonneg')])
+      invariant=[Clause('self.lineno >= 0', label='lineno-nonneg'),
+                 Clause('forall(lambda k: implies(0 <= k and k < len(self.stack), not self.stack[k][2].finished))',
+                        label='SI-containers-on-the-stack-are-open'),
+                 Clause('forall(lambda j, k: implies(0 <= j and j < k and k < len(self.stack), '
+                        'self.stack[j][2] != self.stack[k][2]))', label='SI-containers-on-the-stack-are-different')])
+OPEN_SECTION = [Clause('not section.finished', label='current-section-is-open'),
+                Clause('forall(lambda k: implies(0 <= k and k < len(self.stack), self.stack[k][2] != section))',
+                       label='current-section-is-not-one-of-its-containers')]
 
 assumed('urllib.request.urljoin', params={'base': 'Opt[str]', 'url': 'str'}, returns='str', pure=True,
         ensures=[Clause('result == raw_join(base, url)')], raises=[Raise('ValueError')],
@@ -173,8 +185,8 @@ contract('cfgparser.ZConfigParser.handle_key_value',
 
 contract('cfgparser.ZConfigParser.handle_directive',
          params={'section': 'Ref[Sink]', 'rest': 'str'},
-         requires=[Clause("'\\n' not in rest", label='single-line')],
-         modifies=['self.defines.items'] + CTX_MOD2,
+         requires=[Clause("'\\n' not in rest", label='single-line'), OPEN_SECTION[0]],
+         modifies=['self.defines.items', '+Sink.finished'] + CTX_MOD2,
          asserts=[At("kv_ok(rest) and kv_key(rest) == 'define' and kv_value(rest) is not None and args[1] == val(kv_value(rest))",
                      call='self.handle_define', carries='C03', label='define-dispatch'),
                   At("kv_ok(rest) and kv_key(rest) == 'import' and kv_value(rest) is not None and args[1] == val(kv_value(rest))",
@@ -229,7 +241,8 @@ contract('cfgparser.ZConfigParser.handle_import',
          raises=[Raise('ZConfig.ConfigurationError+', then=[UNCHANGED_OPEN], carries='C07', label='config-error'), IOERR])
 
 contract('cfgparser.ZConfigParser.handle_include',
-         params={'section': 'Ref[Sink]', 'rest': 'str'}, modifies=CTX_MOD2 + ['self.defines.items'],
+         params={'section': 'Ref[Sink]', 'rest': 'str'}, modifies=CTX_MOD2 + ['self.defines.items', '+Sink.finished'],
+         requires=[OPEN_SECTION[0]],
          ensures=[UNCHANGED_OPEN],
          asserts=[At('args[0] == section and args[2] == self.defines and '
                      'subst_spec(old(rest).strip(), self.defines.items)[0] == 0 and '
@@ -252,8 +265,8 @@ POS_CLOSE = [Clause("exc.has_lineno and exc.lineno is not None", carries='C08', 
 
 contract('cfgparser.ZConfigParser.start_section',
          params={'section': 'Ref[Sink]', 'rest': 'str'}, returns='Ref[Sink]',
-         requires=[Clause("'\\n' not in rest", label='single-line')],
-         modifies=['self.stack'] + CTX_MOD,
+         requires=[Clause("'\\n' not in rest", label='single-line')] + OPEN_SECTION,
+         modifies=['self.stack', '+Sink.finished'] + CTX_MOD,
          asserts=[At("sec_ok(hdr_text(old(rest))) and args[0] == section and "
                      "args[1] == sec_type(hdr_text(old(rest))).lower() and "
                      "args[2] == lower_opt(sec_name(hdr_text(old(rest))))",
@@ -265,7 +278,10 @@ contract('cfgparser.ZConfigParser.start_section',
                          carries='C03,C15,C17', label='empty-form-leaves-nesting-unchanged'),
                   Clause("implies(rest[-1:] != '/', self.stack == old(self.stack) + "
                          "[(sec_type(hdr_text(rest)).lower(), lower_opt(sec_name(hdr_text(rest))), section)])",
-                         carries='C03,C17', label='pushes-open-section')],
+                         carries='C03,C17', label='pushes-open-section'),
+                  Clause('not result.finished and forall(lambda k: implies(0 <= k and k < len(self.stack), '
+                         'self.stack[k][2] != result))', carries='C02,C07', label='the-section-returned-is-open-and-not-one-of-its-containers'),
+                  Clause("implies(rest[-1:] != '/', fresh(result))", label='a-new-sink')],
          raises=[Raise('ZConfig.ConfigurationError+', then=POS_CLOSE + [
              Clause('self.stack == old(self.stack)', label='stack-unchanged')], carries='C08', label='config-error')])
 
@@ -275,7 +291,8 @@ contract('cfgparser.ZConfigParser.start_section',
 
 contract('cfgparser.ZConfigParser.end_section',
          params={'section': 'Ref[Sink]', 'rest': 'str'}, returns='Ref[Sink]',
-         modifies=['self.stack'] + CTX_MOD,
+         requires=list(OPEN_SECTION),
+         modifies=['self.stack', '(section if len(self.stack) > 0 else None).finished'] + CTX_MOD,
          asserts=[At("len(old(self.stack)) > 0 and args[0] == old(self.stack)[-1][2] and "
                      "args[1] == rest.rstrip().lower() and args[1] == old(self.stack)[-1][0] and "
                      "args[2] == old(self.stack)[-1][1] and args[3] == section",
@@ -283,17 +300,19 @@ contract('cfgparser.ZConfigParser.end_section',
          ensures=[Clause('len(old(self.stack)) > 0 and rest.rstrip().lower() == old(self.stack)[-1][0]',
                          carries='C03,C15', label='closer-matches-innermost-type'),
                   Clause('self.stack == old(self.stack)[:-1] and result == old(self.stack)[-1][2]',
-                         carries='C03', label='pops')],
+                         carries='C03', label='pops'),
+                  Clause('not result.finished and forall(lambda k: implies(0 <= k and k < len(self.stack), '
+                         'self.stack[k][2] != result))', carries='C02,C07', label='the-container-returned-is-open-and-not-one-of-its-containers')],
          raises=[Raise('ZConfig.ConfigurationError+', then=POS_CLOSE + [
              Clause('implies(len(old(self.stack)) > 0, self.stack == old(self.stack)[:-1])', label='popped'),
              Clause('implies(len(old(self.stack)) == 0, self.stack == old(self.stack))', label='untouched-when-empty')],
              carries='C08', label='config-error')])
 
 # ---- the line loop -----------------------------------------------------------------------------------------------
-PARSE_MOD = ['self.lineno', 'self.stack', 'self.file.lines', 'self.defines.items'] + CTX_MOD2
+PARSE_MOD = ['self.lineno', 'self.stack', 'self.file.lines', 'self.defines.items', '+Sink.finished'] + CTX_MOD2
 contract('cfgparser.ZConfigParser.parse',
          params={'section': 'Ref[Sink]'},
-         requires=[Clause('len(self.stack) == 0', carries='C06', label='own-empty-stack')],
+         requires=[Clause('len(self.stack) == 0', carries='C06', label='own-empty-stack'), OPEN_SECTION[0]],
          modifies=PARSE_MOD,
          asserts=[At("line_class(val(line)) == K_SKIP", stmt='Pass', nth=0, carries='C03', label='skip-only-blank-and-comment'),
                   At("line_class(val(line)) == K_CLOSE and val(line)[-1] == '>' and args[0] == section and "
@@ -310,7 +329,14 @@ contract('cfgparser.ZConfigParser.parse',
          loops=[Loop(invariant=[Clause('done == (line is None)', label='done-iff-no-line'),
                                 Clause("implies(line is not None, '\\n' not in val(line))", label='single-line'),
                                 Clause('implies(done, len(self.file.lines) == 0)', label='done-at-eof'),
-                                Clause('self.lineno >= 0'), UNCHANGED_OPEN],
+                                Clause('self.lineno >= 0'), UNCHANGED_OPEN] + OPEN_SECTION + [
+                                Clause('forall(lambda k: implies(0 <= k and k < len(self.stack), not self.stack[k][2].finished))',
+                                       label='SI-containers-on-the-stack-are-open'),
+                                Clause('forall(lambda j, k: implies(0 <= j and j < k and k < len(self.stack), '
+                                       'self.stack[j][2] != self.stack[k][2]))', label='SI-containers-on-the-stack-are-different'),
+                                Clause('implies(len(self.stack) > 0, fresh(section))', label='inner-sections-were-opened-by-this-parse'),
+                                Clause('forall(lambda k: implies(1 <= k and k < len(self.stack), fresh(self.stack[k][2])))',
+                                       label='inner-containers-were-opened-by-this-parse')],
                      decreases='len(self.file.lines) + (0 if done else 1)',
                      locals={'done': 'bool', 'line': 'Opt[str]', 'section': 'Ref[Sink]'},
                      modifies=PARSE_MOD)])
